@@ -1413,7 +1413,7 @@ OBLIGATIONS = {
     "C04": [("step", "JoinOutput::generate_step"), ("step", "lemma_apos_step"), ("step", "lemma_apos_ends"), ("gen", "JoinOutput::generate_step_branch"), ("steps", "JoinOutput::join_steps"), ("steps", "lemma_join_comma"), ("steps", "lemma_count_take_step"), ("gen", "JoinOutput::generate_results_transposer"), ("gen", "JoinOutput::active_step_branch_count"), ("gen", "JoinOutput::extract_results_tuple"), ("gen", "lemma_refs_toks"), ("gen", "lemma_filter_tokenizable"),
             ("gen", "JoinOutput::is_branch_active_in_step"), ("gen", "JoinOutput::generate_indexed_step_results_name"),
             ("gen", "JoinOutput::branch_result_name"), ("gen", "JoinOutput::branch_result_pat")],
-    "C07": [("top", "join_impl"), ("top", "generate_join"), ("top", "ji_futures_crate_path"), ("gen", "JoinOutput::wrap_into_block"), ("steps", "JoinOutput::generate_thread_builders_and_spawn_joiners"), ("steps", "JoinOutput::generate_step_tail"), ("steps", "lemma_concat_all"), ("entries", "lemma_entry_table"), ("top", "JoinOutput::to_tokens"), ("gen", "JoinOutput::generate_step_branch")],
+    "C07": [("top", "JoinOutput::new"), ("top", "JoinOutput::new_fields"), ("guards", "new_init_lazy_branches"), ("top", "join_impl"), ("top", "generate_join"), ("top", "ji_futures_crate_path"), ("gen", "JoinOutput::wrap_into_block"), ("steps", "JoinOutput::generate_thread_builders_and_spawn_joiners"), ("steps", "JoinOutput::generate_step_tail"), ("steps", "lemma_concat_all"), ("entries", "lemma_entry_table"), ("top", "JoinOutput::to_tokens"), ("gen", "JoinOutput::generate_step_branch")],
     "C13": [("handler", "Handler::try_from"), ("handler", "Handler::peek_handler"), ("handler", "Handler::peek_map_handler"), ("handler", "Handler::peek_then_handler"), ("handler", "Handler::peek_and_then_handler"), ("top", "generate_join"), ("top", "ji_handler"), ("top", "JoinOutput::new"), ("top", "JoinOutput::to_tokens"), ("guards", "Handler::is_map"), ("guards", "Handler::is_then"), ("guards", "Handler::is_and_then"), ("guards", "new_guards"), ("gen", "JoinOutput::generate_handle"), ("gen", "JoinOutput::extract_results_tuple"), ("gen", "JoinOutput::generate_results_transposer")],
     "C09": [("gen", "JoinOutput::expand_process_expr"), ("steps", "JoinOutput::generate_step_tail"), ("top", "JoinOutput::to_tokens"), ("step", "JoinOutput::generate_step"), ("step", "lemma_apos_step"), ("step", "lemma_apos_ends"), ("gen", "JoinOutput::generate_step_branch")],
     # the steps of every kind sit in a plain block of the scope the macro is called in (no closure / thread / box of
